@@ -66,8 +66,31 @@ class C03(layfamily.Family):
         size = rng.choice([9, 9, 6, 7.5, 8, 10, 12, 14, 18, 24])
         hm = ["explicit", "explicit2", "none", "default", "no_colheader"][k % 5]
         spec, info = laygen.gen_spec(rng, header_mode=hm, n=rng.randint(0, 60), nrow=rng.randint(1, 50),
-                                     dividers=(k % 7 == 0), font=font, size=size)
+                                     dividers=(k % 7 == 0), font=font, size=size,
+                                     nulls=(0.2 if k % 3 == 1 else 0.0))
         n, ncols = info["n"], len(spec["df"]["cols"])
+        if k % 3 == 1:
+            first = len(info["hier"])
+            for i, r in enumerate(spec["df"]["rows"]):
+                if r[first] is None:
+                    r[first] = f"r{i}c0"
+        if n and k % 3 == 1:
+            # column-wise sizes / fonts with null cells in between: every cell is measured at ITS column's font, size
+            # and width, whatever stands (or does not stand) in the cells to its left
+            spec["body"]["text_font_size"] = [rng.choice([6, 7.5, 9, 12, 18, 24]) for _ in range(ncols)]
+            if rng.random() < 0.5:
+                spec["body"]["text_font"] = [rng.randint(1, 10) for _ in range(ncols)]
+            first = len(info["hier"])
+            for i, r in enumerate(spec["df"]["rows"]):
+                if r[first] is None:
+                    r[first] = f"r{i}c0"          # the first data column keeps the row's tag
+            phrases = ["the same remark repeated down the column", "not evaluable at this visit", "see listing",
+                       "a somewhat longer remark that wraps in a narrow column at a large size"]
+            for r in spec["df"]["rows"]:
+                for j in range(first + 1, ncols):
+                    if r[j] is not None and rng.random() < 0.5:
+                        r[j] = rng.choice(phrases)
+            info["colwise"] = True
         if n and k % 3 == 0:
             # row-wise fonts / sizes (matrix attributes) and texts that REPEAT down a column: the height of a row
             # depends on the row's own font, not on where the text was first seen
